@@ -30,6 +30,10 @@ import SonicSpec.Proofs.Mem
 import SonicSpec.Proofs.MemScan
 import SonicSpec.Proofs.MemCt
 import SonicSpec.Proofs.MemApi
+import SonicSpec.Proofs.MemStrQuote
+import SonicSpec.Proofs.MemStrHtml
+import SonicSpec.Proofs.MemStrUnq
+import SonicSpec.Proofs.MemStrUtf8
 namespace SonicSpec.Props.C05
 open SonicSpec SonicSpec.Mem
 set_option linter.unusedSimpArgs false
@@ -283,5 +287,64 @@ example : PageGranular (fun a => if a < 8192 then some 0 else none) := by
     the carry takes it over; closing quote found at 5, first backslash at 1 -/
 example : advStr 0 [2] (ofList [97, 92, 34, 98, 34]) 5 0 = some (.found 5 (some 1)) := by
   simp [advStr, strScan, Scan.run, scalarLoop, loadW, ofList, strBlk, strStep, escMask, ctz, epSet]
+
+/-! ### the string routines (Model/MemStr.lean): quote, unquote, html_escape, UTF-8 validation
+
+    None of them over-reads on purpose (every vector load is guarded by `nb >= W`; `vec_cross_page` is only used
+    by skip_container_fast and xmemcmpeq), so the statements are the full ones.  An input is `Holds (view m base) s`:
+    its bytes are mapped and are `s`; nothing is assumed about any other address. -/
+
+theorem quote_no_fault (w : StrWidths) (rooms : List Nat) (m : Mem) (base : Nat) (s : Bytes)
+    (h : Holds (view m base) s) : quoteGo w Str.quoteByte (view m base) s.length rooms 0 [] ≠ none := by
+  rw [quoteGo_spec w Str.quoteByte (fun c hc => (quoteSpecial_tabs c hc).1) h rooms 0 [] (Nat.zero_le _)]
+  simp
+
+theorem quote_content_only (w : StrWidths) (rooms : List Nat) (m m' : Mem) (base base' : Nat) (s : Bytes)
+    (h : Holds (view m base) s) (h' : Holds (view m' base') s) :
+    quoteGo w Str.quoteByte (view m base) s.length rooms 0 [] = quoteGo w Str.quoteByte (view m' base') s.length rooms 0 [] := by
+  rw [quoteGo_spec w Str.quoteByte (fun c hc => (quoteSpecial_tabs c hc).1) h rooms 0 [] (Nat.zero_le _),
+      quoteGo_spec w Str.quoteByte (fun c hc => (quoteSpecial_tabs c hc).1) h' rooms 0 [] (Nat.zero_le _)]
+
+/-- every single native call of quote (any budget, any restart position) stays inside the input -/
+theorem quoteNative_no_fault (w : StrWidths) (m : Mem) (base : Nat) (s : Bytes) (p room : Nat)
+    (h : Holds (view m base) s) (hp : p ≤ s.length) :
+    quoteNative w Str.quoteByte (view m base) s.length p room ≠ none := by
+  obtain ⟨r, hr, _⟩ := quoteNative_spec w Str.quoteByte (fun c hc => (quoteSpecial_tabs c hc).1) h p room hp
+  simp [hr]
+
+theorem unquote_no_fault (w : StrWidths) (unirep dbl : Bool) (m : Mem) (base : Nat) (s : Bytes)
+    (h : Holds (view m base) s) : unquoteNative w unirep dbl (view m base) s.length ≠ none := by
+  rw [unquoteNative_spec w unirep dbl h]; simp
+
+theorem unquote_content_only (w : StrWidths) (unirep dbl : Bool) (m m' : Mem) (base base' : Nat) (s : Bytes)
+    (h : Holds (view m base) s) (h' : Holds (view m' base') s) :
+    unquoteNative w unirep dbl (view m base) s.length = unquoteNative w unirep dbl (view m' base') s.length := by
+  rw [unquoteNative_spec w unirep dbl h, unquoteNative_spec w unirep dbl h']
+
+theorem htmlEscape_no_fault (w : StrWidths) (rooms : List Nat) (dst : Bytes) (m : Mem) (base : Nat) (s : Bytes)
+    (h : Holds (view m base) s) : htmlGo w (view m base) s.length rooms 0 dst ≠ none := by
+  rw [htmlGo_spec w h rooms 0 dst (Nat.zero_le _)]; simp
+
+theorem htmlEscape_content_only (w : StrWidths) (rooms : List Nat) (dst : Bytes) (m m' : Mem) (base base' : Nat)
+    (s : Bytes) (h : Holds (view m base) s) (h' : Holds (view m' base') s) :
+    htmlGo w (view m base) s.length rooms 0 dst = htmlGo w (view m' base') s.length rooms 0 dst := by
+  rw [htmlGo_spec w h rooms 0 dst (Nat.zero_le _), htmlGo_spec w h' rooms 0 dst (Nat.zero_le _)]
+
+/-- both validators (the vector one with its 128/64-byte rounds and zero-padded remainder, the scalar one with its
+    4-byte loads) load inside the input only; no soundness assumption is needed for that -/
+theorem utf8_no_fault (w : StrWidths) (m : Mem) (base : Nat) (s : Bytes) (h : Holds (view m base) s) :
+    utf8Fast w (view m base) s.length ≠ none := by
+  simp only [utf8Fast]
+  split
+  · rw [utf8Scalar_spec h]; simp
+  · cases hv : utf8Vec w.utf8 (view m base) s.length with
+    | none => exact absurd hv (utf8Vec_ne_none s.length h.ne_none w.utf8)
+    | some b => cases b <;> simp [utf8Scalar_spec h]
+
+theorem utf8_content_only (w : StrWidths) (m m' : Mem) (base base' : Nat) (s : Bytes)
+    (h : Holds (view m base) s) (h' : Holds (view m' base') s) :
+    utf8Fast w (view m base) s.length = utf8Fast w (view m' base') s.length := by
+  simp only [utf8Fast, utf8Scalar_spec h, utf8Scalar_spec h',
+    utf8Vec_congr s.length h.agree w.utf8, utf8Vec_congr s.length h'.agree w.utf8]
 
 end SonicSpec.Props.C05
